@@ -1,6 +1,8 @@
 import Lean.Data.Json
 import MontePyVerif.Model.ValueFormat
 import MontePyVerif.Spec.Number
+import MontePyVerif.Model.TransformWrite
+import MontePyVerif.Spec.Transform
 /-! Line-protocol driver for the `ValueNode` model (units U-valueformat, U-pyformat, U-fortranfloat)
     and the Spec number reader.  One JSON case per input line, one JSON observation per output line.
     Integers travel as decimal strings (they have up to 1100 digits). -/
@@ -176,8 +178,25 @@ def runPyFormat (j : Json) : Except String Json := do
   let w := Spec.firstWord t
   return Json.mkObj [("text", txt t), ("spec", optRat (Spec.parseChars w)), ("render_ok", renderOk dec w)]
 
+/-- unit U-transform: the live `Transform` just before it is written (`Model/TransformWrite.lean`): which of the 12
+    numbers are written as a jump, and what the Spec reads for the written entries in the unit that is written -/
+def runTransform (j : Json) : Except String Json := do
+  let deg ← (← j.getObjVal? "deg").getBool?
+  let m2a ← (← j.getObjVal? "m2a").getBool?
+  let nodes ← (← (← j.getObjVal? "nodes").getArr?).toList.mapM fun v => do
+    let n ← getOptNum v
+    pure (n.map (·.toRat))
+  let rats (k : String) : Except String (List Rat) := do
+    (← (← j.getObjVal? k).getArr?).toList.mapM fun v => do pure (← getNum v).toRat
+  let s : TransformWrite.State := { inDegrees := deg, mainToAux := m2a, nodes, disp := ← rats "disp", rot := ← rats "rot" }
+  let entries := TransformWrite.writtenEntries s
+  return Json.mkObj [("entries", Json.arr (entries.map optRat).toArray),
+                     ("held", Json.arr ((TransformWrite.heldNumbers s).map ratJson).toArray),
+                     ("read", Json.arr ((Spec.trRead deg (TransformWrite.heldNumbers s).length entries).map ratJson).toArray)]
+
 def runCase (j : Json) : Except String Json := do
   match j.getObjVal? "unit" with
+  | .ok (Json.str "transform") => runTransform j
   | .ok (Json.str "pyformat") => runPyFormat j
   | .ok (Json.str "state") => runState j
   | .ok (Json.str "read") =>
